@@ -1177,9 +1177,14 @@ fn main() {
     // case (gcd/lcm/pow facades reach the counted loops).
     m.use_hooks = true;
     if !m.replay_if_requested() {
-        for &bits in WIDTHS {
-            if m.width_enabled(bits) {
-                workload(&mut m, bits);
+        loop {
+            for &bits in WIDTHS {
+                if m.width_enabled(bits) {
+                    workload(&mut m, bits);
+                }
+            }
+            if !m.another_light_pass() {
+                break;
             }
         }
     }
